@@ -33,15 +33,29 @@ _reopenable_handlers = []
 
 def closeFiles():
     """Reopen all logfiles managed by ZConfig configuration."""
+    # A handler that cannot be closed cleanly (its last flush fails) does
+    # not keep the other log files open: the first error is raised once
+    # every handler has been dealt with.
+    error = None
     while _reopenable_handlers:
         wr = _reopenable_handlers.pop()
         h = wr()
         if h is not None:
-            h.close()
+            try:
+                h.close()
+            except Exception as e:
+                if error is None:
+                    error = e
+    if error is not None:
+        raise error
 
 
 def reopenFiles():
     """Reopen all logfiles managed by ZConfig configuration."""
+    # A log file that cannot be reopened right now does not keep the
+    # other logs from being reopened: the first error is raised once
+    # every handler has been dealt with.
+    error = None
     for wr in _reopenable_handlers[:]:
         h = wr()
         if h is None:
@@ -50,7 +64,13 @@ def reopenFiles():
             except ValueError:
                 continue
         else:
-            h.reopen()
+            try:
+                h.reopen()
+            except Exception as e:
+                if error is None:
+                    error = e
+    if error is not None:
+        raise error
 
 
 def _remove_from_reopenable(wr):
